@@ -110,3 +110,35 @@ Fixpoint run_sched (s : st) (progs : list (list op)) (sched : list nat) : st * l
 
 Definition trace_wins (c : N) (tr : list (nat * op * out)) : nat :=
   length (filter (fun e => is_win c (snd (fst e)) (snd e)) tr).
+
+(* ---- the admission-level view (serveWs) ----
+   serveWs exchanges the code first and looks at the token afterwards: a presentation on the path of
+   another topic (flag true) is, for the store, an Exchange like any other, but the websocket is never
+   let in whatever the store handed over. *)
+Definition view_out (wrong : bool) (x : out) : out :=
+  if wrong then match x with OTok _ _ => ORefused | y => y end else x.
+
+Fixpoint run_view (s : st) (ops : list (bool * op)) : list out :=
+  match ops with
+  | [] => []
+  | (wrong, o) :: r => let '(s1, x) := step s o in view_out wrong x :: run_view s1 r
+  end.
+
+(* number of websocket connections let in with code c along a history of presentations *)
+Fixpoint admissions (c : N) (s : st) (ops : list (bool * op)) : nat :=
+  match ops with
+  | [] => 0
+  | (wrong, o) :: r =>
+      (if is_win c o (view_out wrong (snd (step s o))) then 1 else 0) + admissions c (fst (step s o)) r
+  end.
+
+(* what an operation leaves alone: entry e of code c survives it (no clock advance, not the code itself,
+   not its booking) *)
+Definition spares (c : N) (e : entry) (o : op) : bool :=
+  match o with
+  | Submit c' _ _ => negb (c' =? c)%N
+  | Exchange c' => negb (c' =? c)%N
+  | Purge b => negb (b =? bk e)%N
+  | Tick _ => false
+  | Sweep | Count => true
+  end.
